@@ -130,6 +130,20 @@ def run_case(case, rec):
             rec.cmp(n * n, cell)
     # the same callable on one point buffer updated in place, and on integer-typed points
     if fn is not None and not nbad:
+        # results kept by the caller ([h(p) for p in path]) must not be overwritten by later calls
+        kept = []
+        try:
+            for pt in case["points"]:
+                r_ = fn(B.point_array(V, pt))
+                kept.append((r_, np.array(r_, dtype=float, copy=True)))
+            rec.cmp(len(kept), cell)
+            rec.events["retained-result-checks"] += len(kept)
+            for r_, snap in kept:
+                if not np.array_equal(np.asarray(r_, dtype=float), snap, equal_nan=True):
+                    bad("compile_hessian", "returned-array-overwritten-by-a-later-call", case["points"][0], got=np.asarray(r_, dtype=float).tolist(), want=snap.tolist())
+                    break
+        except Exception as ex:
+            bad("compile_hessian", "call-raises:" + type(ex).__name__, case["points"][0], ex=ex)
         buf = B.point_array(V, case["points"][0]).copy()
         for pt in list(case["points"]) + [case["points"][0]]:
             buf[:] = B.point_array(V, pt)
